@@ -80,6 +80,16 @@ def check(run):
                if (c[0].get("k") == "MCall" and unwrap(c[0].get("recv") or {}).get("k") == "This" and callee_name(c[0]) in ("close", "open"))]
         inner = [(i, c) for i, c in enumerate(calls) if callee_qn(c[0]) == BASE + "::rotate_output"]
         assigns = [(lp, rhs, node) for lp, rhs, node in consumption.assignment_targets(ir.stmts(f["body"])) if lp == ("this", "m_value")]
+        # what a handler does on its way to re-throwing (restoring the previous name after a failed open, ...) is not part
+        # of the rotation sequence itself
+        in_rethrow = set()
+        for t_ in ir.walk(f["body"]):
+            if t_.get("k") == "Try":
+                for h_ in t_.get("handlers", []):
+                    hb = ir.stmts(h_.get("body"))
+                    if hb and unwrap(hb[-1]).get("k") == "Throw" and unwrap(hb[-1]).get("rethrow"):
+                        in_rethrow |= set(id(x) for x in ir.walk(h_.get("body")))
+        assigns = [a for a in assigns if id(a[2]) not in in_rethrow]
         if cls in (GZ, XZ):
             seq = [n for i, n, c in own]
             ok = seq == ["close", "open"] and len(inner) == 1 and own[0][0] < inner[0][0] < own[1][0] and \
